@@ -45,6 +45,8 @@ THEOREMS = [
     "Optyx.Props.SortText.sortKey_text",
     "Optyx.Props.VarsTie.svsVisit_eq",
     "Optyx.Props.VarsTie.svsFrame_text",
+    "Optyx.Props.VarsTie.shortcutSource_eq",
+    "Optyx.Props.VarsTie.generalPath_text",
     "Optyx.Props.VarsTie.svsRun_eq",
     "Optyx.Props.PinsC16.anchors",
 ]
